@@ -10,8 +10,8 @@ from warnings import warn
 
 import numpy as np
 import pandas as pd
-from MDAnalysis.lib.pkdtree import PeriodicKDTree
 from pymatgen.core import Structure
+from scipy.spatial import cKDTree
 
 from .caching import weak_lru_cache
 from .metrics import TrajectoryMetrics
@@ -511,15 +511,14 @@ def _calculate_atom_states(
     """
     lattice = trajectory.get_lattice()
 
-    cutoff = max(list(site_radius.values()))
-
     traj_frac_coords = trajectory.positions.reshape(-1, 3)
     traj_cart_coords = lattice.get_cartesian_coords(traj_frac_coords)
 
-    periodic_tree: PeriodicKDTree = PeriodicKDTree(
-        box=np.array(lattice.parameters, dtype=np.float32)
-    )
-    periodic_tree.set_coords(traj_cart_coords, cutoff=cutoff)
+    # Search in Cartesian space against explicit periodic images of the sites.
+    # This is exact for every cell shape and orientation (a periodic tree built
+    # from `lattice.parameters` assumes a particular orientation of the cell).
+    tree = cKDTree(traj_cart_coords)
+    images = np.mgrid[-1:2, -1:2, -1:2].reshape(3, -1).T
 
     shape = trajectory.positions.shape[0:2]
 
@@ -535,14 +534,17 @@ def _calculate_atom_states(
             frac_coords = sites.frac_coords
             key = None
 
-        cart_coords = lattice.get_cartesian_coords(frac_coords)
-        site_index = periodic_tree.search_tree(cart_coords, radius * site_inner_fraction)
+        frac_images = (np.mod(frac_coords, 1)[None, :, :] + images[:, None, :]).reshape(-1, 3)
+        cart_coords = lattice.get_cartesian_coords(frac_images)
+        neighbours = tree.query_ball_point(cart_coords, radius * site_inner_fraction)
+        counts = [len(found) for found in neighbours]
 
-        if site_index.size == 0:
+        if sum(counts) == 0:
             warn(f'No floating species in range of {label} ({radius=})', stacklevel=2)
             continue
 
-        siteno, index = site_index.T
+        siteno = np.repeat(np.arange(len(frac_images)) % len(frac_coords), counts)
+        index = np.concatenate(neighbours).astype(int)
 
         if key is not None:
             # `siteno` indexes the sites of this label group
